@@ -241,7 +241,7 @@ impl Prop for Sem {
                 .iter()
                 .filter_map(|c| Some((c["func"].as_u64()? as u32, c["args"].as_array()?.iter().filter_map(|a| a.as_i64().map(|v| Val::I32(v as i32))).collect())))
                 .collect();
-            return Some(self.evaluate(&bytes, plan, calls, false));
+            return Some(self.evaluate(&bytes, plan, calls, w["component_twice"].as_bool().unwrap_or(false), false));
         }
         match (w["seed"].as_u64(), w["idx"].as_u64()) {
             (Some(s), Some(i)) => Some(self.run_case(s, i, false)),
@@ -251,7 +251,8 @@ impl Prop for Sem {
     fn run_case(&self, seed: u64, idx: u64, want_sample: bool) -> CaseOut {
         let mut rng = Rng::for_case(seed, self.id, idx);
         match gen_case(self.id, &mut rng) {
-            Ok((bytes, plan, calls)) => self.evaluate(&bytes, plan, calls, want_sample),
+            // 1 case in 8: the module sits in a component that is encoded twice; the module of the second encoding is judged
+            Ok((bytes, plan, calls)) => self.evaluate(&bytes, plan, calls, idx % 8 == 7, want_sample),
             Err(e) => {
                 let mut out = CaseOut::default();
                 out.inconclusive = Some(e);
@@ -383,8 +384,16 @@ pub fn gen_case(id: &str, rng: &mut Rng) -> Result<(Vec<u8>, Vec<Inj>, Vec<(u32,
 }
 
 impl Sem {
-    fn evaluate(&self, base: &[u8], plan: Vec<Inj>, calls: Vec<(u32, Vec<Val>)>, want_sample: bool) -> CaseOut {
+    fn evaluate(&self, base: &[u8], plan: Vec<Inj>, calls: Vec<(u32, Vec<Val>)>, component_twice: bool, want_sample: bool) -> CaseOut {
         let mut out = CaseOut::default();
+        let apply = |b: &[u8], p: &[Inj]| {
+            if component_twice {
+                lower::apply_component_n(b, p, &mut Rng::new(7, 7), 2)
+            } else {
+                lower::apply_module(b, p)
+            }
+        };
+        out.ob(if component_twice { "path:component-encoded-twice" } else { "path:module" });
         let raw = match sym::decode(base) {
             Ok(r) => r,
             Err(e) => {
@@ -396,14 +405,14 @@ impl Sem {
         out.fp = fnv_mix(fnv(base), fnv(format!("{:?}{:?}", plan, calls).as_bytes()));
         let plan_json: Vec<String> = plan.iter().map(|i| format!("{:?}", i)).collect();
         let witness = || {
-            json!({"base_hex": base.iter().map(|b| format!("{:02x}", b)).collect::<String>(), "plan": lower::plan_to_json(&plan),
+            json!({"base_hex": base.iter().map(|b| format!("{:02x}", b)).collect::<String>(), "plan": lower::plan_to_json(&plan), "component_twice": component_twice,
                    "calls": calls.iter().map(|(f, a)| json!({"func": f, "args": a.iter().map(|v| match v { Val::I32(x) => *x as i64, Val::I64(x) => *x, _ => 0 }).collect::<Vec<_>>()})).collect::<Vec<_>>()})
         };
         let base_wat = || crate::props::c01::text_of(base);
         for i in &plan {
             out.ob(format!("mode:{:?}@{}", i.mode, site_class(&raw.funcs[(i.func - nimp) as usize].ops[i.at].name)));
         }
-        let (status, enc, _logs) = match lower::apply_module(base, &plan) {
+        let (status, enc, _logs) = match apply(base, &plan) {
             Ok(x) => x,
             Err(e) if e.starts_with("legal-call-panic") => {
                 out.violate(format!("legal-call:{}", e.split(": ").last().unwrap_or("")), json!({"plan": plan_json, "error": e, "explicit_witness": witness(), "base_wat": base_wat()}));
@@ -437,7 +446,7 @@ impl Sem {
             while k < culprit.len() && culprit.len() > 1 {
                 let mut trial = culprit.clone();
                 trial.remove(k);
-                let still_invalid = match lower::apply_module(base, &trial) {
+                let still_invalid = match apply(base, &trial) {
                     Ok((_, Ok(b), _)) => sym::validate(&b).is_err(),
                     _ => false,
                 };
